@@ -45,11 +45,23 @@ def parse_stats(out):
     return st
 
 
-def validate_batch(traces, cfg='FBTrace.cfg', module='FBTrace.tla', timeout=1800, workdir=None):
+def trace_cfg(open_kf=(), cache='CP_K', invariants=('InvView', 'InvAtomic', 'InvClaims', 'InvCache')):
+    kf = '{' + ', '.join('"%s"' % k for k in sorted(open_kf)) + '}'
+    lines = ['SPECIFICATION TraceSpec', 'CONSTANT CachePath <- %s' % cache, 'CONSTANT OpenKF = %s' % kf]
+    lines += ['INVARIANT %s' % i for i in invariants]
+    lines += ['CHECK_DEADLOCK FALSE', '']
+    return '\n'.join(lines)
+
+
+def validate_batch(traces, cfg=None, module='FBTrace.tla', timeout=1800, workdir=None, open_kf=()):
     """Validate one batch of traces in one JVM.  Returns (verdicts, stats, out)."""
     own = workdir is None
     workdir = workdir or tempfile.mkdtemp(prefix='fbv_tlc_', dir=scratch_root())
     try:
+        if cfg is None:
+            cfg = os.path.join(workdir, 'trace.cfg')
+            with open(cfg, 'w') as f:
+                f.write(trace_cfg(open_kf))
         tf = os.path.join(workdir, 'traces.ndjson')
         with open(tf, 'w') as f:
             for t in traces:
@@ -74,7 +86,7 @@ def validate_batch(traces, cfg='FBTrace.cfg', module='FBTrace.tla', timeout=1800
             shutil.rmtree(workdir, ignore_errors=True)
 
 
-def validate(traces, jobs=16, batch=None, cfg='FBTrace.cfg', module='FBTrace.tla', timeout=3600):
+def validate(traces, jobs=16, batch=None, cfg=None, module='FBTrace.tla', timeout=3600, open_kf=()):
     """Validate traces in parallel batches.  Returns (verdicts by id, summed stats)."""
     if not traces:
         return {}, {'states': 0, 'distinct': 0, 'depth': 0, 'jvms': 0, 'wall_s': 0.0}
@@ -88,7 +100,7 @@ def validate(traces, jobs=16, batch=None, cfg='FBTrace.cfg', module='FBTrace.tla
     verdicts = {}
     tot = {'states': 0, 'distinct': 0, 'depth': 0, 'jvms': len(chunks)}
     with ThreadPoolExecutor(max_workers=jobs) as ex:
-        for v, st, _ in ex.map(lambda c: validate_batch(c, cfg, module, timeout), chunks):
+        for v, st, _ in ex.map(lambda c: validate_batch(c, cfg, module, timeout, None, open_kf), chunks):
             verdicts.update(v)
             tot['states'] += st['states']
             tot['distinct'] += st['distinct']
